@@ -143,7 +143,7 @@ fn parse_rejects<const L: usize, const PEPPI: bool>() -> bool {
 	}
 }
 
-// @verif property=C20 tier=quick mem=10 timeout=1500
+// @verif property=C20 tier=thorough mem=16 timeout=2400
 // @encodes impl FromStr for peppi::io::slippi::Version, peppi::io::parse_u8 (with the real str::split and u8::from_str)
 // @symbolic 8 every string of length 2 over a 13-symbol alphabet (. + - digits letter space)
 // @bound strings of exactly 2 bytes (none can be a version: rejection side only)
@@ -156,7 +156,7 @@ fn c20_parse_rejects_slippi_l2() {
 	kani::cover!(!ok, "rejected");
 }
 
-// @verif property=C20 tier=quick mem=10 timeout=1500
+// @verif property=C20 tier=thorough mem=16 timeout=2400
 // @encodes impl FromStr for peppi::io::slippi::Version, peppi::io::parse_u8
 // @symbolic 12 every string of length 3 over a 13-symbol alphabet
 // @bound strings of exactly 3 bytes (rejection side only)
